@@ -1420,6 +1420,69 @@ theorem nested_fill_request (outer : Split (List (Branch σ α)) α) (hv : outer
     simp only [hne, ↓reduceIte, reduceCtorEq, hops]
     exact outputs_frTrace_splitOps _ _ _ hok
 
+/-! ## 9d. a tuple `(f…, el, g…)` is `el` seen through `f` and `g`
+
+`_get_seq_with_type` converts a tuple of callables around one element into a `FillComputeSeq`,
+`FillRequestSeq` or `Sequence` (`seqOps`).  Inside `Split.run` such a branch yields the
+post-processed results of the bare element on the pre-processed flow, block for block. -/
+
+theorem fillBuf_seqOps (i : Nat) (pre post : List (α → α)) (el : Ops σ α) :
+    ∀ (s : σ) (xs : List α),
+      (fillBuf i (seqOps pre post el) s xs).2 = (fillBuf i el s (xs.map (applyAll pre))).2 := by
+  intro s xs
+  induction xs generalizing s with
+  | nil => rfl
+  | cons x xs ih =>
+    obtain ⟨s', st, hf⟩ : ∃ s' st, el.fill s (applyAll pre x) = (s', st) := ⟨_, _, rfl⟩
+    have hf' : (seqOps pre post el).fill s x = (s', st) := hf
+    cases st with
+    | true =>
+      rw [fillBuf_cons_stop i _ s s' x xs hf', List.map_cons, fillBuf_cons_stop i el s s' _ _ hf]
+    | false =>
+      rw [fillBuf_cons_ok i _ s s' x xs hf', List.map_cons, fillBuf_cons_ok i el s s' _ _ hf]
+      exact ih s'
+
+theorem outputs_map_outs (i : Nat) (f : α → α) (vals : List α) :
+    outputs (outs i (vals.map f)) = (outputs (outs i vals)).map f := by
+  simp [outputs_outs]
+
+/-- a fill/compute tuple: `compute()` results post-processed, of the element filled with the
+pre-processed flow -/
+theorem tuple_fill_compute (b : Branch σ α) (pre post : List (α → α)) (xs : List α) :
+    outputs (fcTrace { b with ops := seqOps pre post b.ops } xs) =
+      (outputs (fcTrace b (xs.map (applyAll pre)))).map (applyAll post) := by
+  simp only [fcTrace, outputs_append, outputs_fillBuf, outputs, outputs_outs, List.nil_append,
+    fillBuf_seqOps]
+  rfl
+
+/-- a fill/request tuple, block for block -/
+theorem tuple_fill_request (i : Nat) (pre post : List (α → α)) (el : Ops σ α) (bl : List (List α)) :
+    ∀ (s : σ), outputs (frTrace i (seqOps pre post el) s bl) =
+      (outputs (frTrace i el s (bl.map (fun blk => blk.map (applyAll pre))))).map (applyAll post) := by
+  induction bl with
+  | nil => intro s; rfl
+  | cons blk rest ih =>
+    intro s
+    simp only [frTrace, List.map_cons, outputs_append, outputs_fillBuf, outputs, outputs_outs,
+      List.nil_append, fillBuf_seqOps, List.map_append]
+    congr 1
+    by_cases h : (fillBuf i el s (blk.map (applyAll pre))).2.2 = true
+    · simp [h, outputs]
+    · simp only [h, Bool.false_eq_true, ↓reduceIte]
+      exact ih _
+
+/-- a plain-Sequence tuple, block for block -/
+theorem tuple_sequence (i : Nat) (pre post : List (α → α)) (el : Ops σ α) (bl : List (List α)) :
+    ∀ (s : σ), outputs (seqTrace i (seqOps pre post el) s bl) =
+      (outputs (seqTrace i el s (bl.map (fun blk => blk.map (applyAll pre))))).map (applyAll post) := by
+  induction bl with
+  | nil => intro s; rfl
+  | cons blk rest ih =>
+    intro s
+    simp only [seqTrace, List.map_cons, outputs, outputs_append, outputs_outs, List.map_append]
+    congr 1
+    exact ih _
+
 /-! ## 10. non-vacuity: a concrete Split that satisfies the hypotheses used above -/
 
 section demo
